@@ -37,14 +37,19 @@
    quit channel; events DURING a round (Conc.v has the interleaving of the
    filter-header write with a reorganisation).
 
-   The model is of the tree WITH the repairs F111 and F112 (a failed attempt
-   goes back to waitForHeaders - new tip - and forgets the cached lists);
-   [c_legacy := true] gives the code before: the loop around resolveConflict
-   keeps the tip it read before its first iteration (PRetry) and the lists.
+   The model is of the tree WITH the repairs F110 (the cached lists carry the
+   stop hash of the query that fetched them, [l_cache_stop]; they are fetched
+   again when it is not the stop hash of now), F111 and F112 (a failed
+   attempt goes back to waitForHeaders - new tip - and forgets the cached
+   lists).  Two switches give the code before, for the witnesses only:
+   [c_height_only := true] the re-query test by height alone (before F110),
+   [c_legacy := true] the loop around resolveConflict that keeps the tip it
+   read before its first iteration (PRetry) and the lists (before F111/F112).
 
-   Ghost [l_flag]: root-cause code 21 (F110, open) is set where the cached
-   lists are used again although the chain is no longer the one they were
-   fetched for.  It never influences behaviour. *)
+   Ghost [l_flag]: root-cause code 21 is set where the cached lists are used
+   again although the chain is no longer the one they were fetched for
+   (ghost [l_cache_bl]).  It never influences behaviour; with the repaired
+   re-query test it is never set (LoopProofsT.round_flag_clear). *)
 From stdpp Require Import gmap list.
 From Coq Require Import ZArith Lia.
 From Verif Require Import S1.Model C07.Spec C03.Model C03.Spec.
@@ -80,7 +85,8 @@ Record lcfg := {
   c_hard : Z -> option Z;          (* chainsync.ValidateCFHeader's table *)
   c_cp : option (Z * Z);           (* last hard-coded BLOCK checkpoint: height, hash *)
   c_genesis : Z;                   (* b.genesisHeader *)
-  c_legacy : bool                  (* the code before the repairs F111/F112 *)
+  c_legacy : bool;                 (* the code before the repairs F111/F112 *)
+  c_height_only : bool             (* the code before the repair F110 *)
 }.
 
 Inductive phase :=
@@ -93,6 +99,7 @@ Record lstate := {
   l_a : alog2;
   l_ph : phase;
   l_cache : list (Z * list Z);     (* allCFCheckpoints *)
+  l_cache_stop : Z;                (* cfCheckptsStopHash (0: the all-zero hash) *)
   l_conn : list Z;
   l_banned : list Z;
   l_synced : bool;
@@ -150,13 +157,19 @@ Definition best (c : lcfg) (lastH lastX : Z) : Z * Z :=
   end.
 
 Definition set_ph (s : lstate) (ph : phase) : lstate :=
-  {| l_a := l_a s; l_ph := ph; l_cache := l_cache s; l_conn := l_conn s; l_banned := l_banned s;
+  {| l_a := l_a s; l_ph := ph; l_cache := l_cache s; l_cache_stop := l_cache_stop s; l_conn := l_conn s; l_banned := l_banned s;
      l_synced := l_synced s; l_panic := l_panic s; l_cache_bl := l_cache_bl s; l_flag := l_flag s |}.
 
 (* "If the height now exceeds the height at which we fetched the checkpoints
-   last time, we must query our peers again": (re-queried?, the lists) *)
+   last time, we must query our peers again. The same goes for lists that
+   were fetched for another chain" *)
+Definition refetch_cond (c : lcfg) (s : lstate) (lastH lastX : Z) : bool :=
+  (min_checkpoint_height (l_cache s) <? lastH) ||
+  (negb (c_height_only c) && negb (l_cache_stop s =? snd (best c lastH lastX))).
+
+(* (re-queried?, the lists) *)
 Definition lists_of (c : lcfg) (s : lstate) (lastH lastX : Z) (d : rdata) : bool * list (Z * list Z) :=
-  let refetch := min_checkpoint_height (l_cache s) <? lastH in
+  let refetch := refetch_cond c s lastH lastX in
   (refetch,
    if refetch then accept_cp (snd (best c lastH lastX)) (onlyc (l_conn s) cr_peer (d_cpans d)) []
    else l_cache s).
@@ -168,35 +181,36 @@ Definition resolve_of (c : lcfg) (s : lstate) (lastH lastX : Z) (d : rdata) : li
 
 (* the rest of one iteration of "for len(goodCheckpoints) == 0 && lastHeight
    >= 1000" once the lists are there, followed by getCheckpointedCFHeaders
-   if it produced a list.  [cbl], [flag]: the new values of the ghosts *)
+   if it produced a list.  [cst]: the stop hash the lists were fetched for;
+   [cbl], [flag]: the new values of the ghosts *)
 Definition attempt_with (c : lcfg) (s : lstate) (lastH lastX : Z) (d : rdata)
-           (refetch : bool) (cache : list (Z * list Z)) (cbl : list Z) (flag : Z) : lstate * rout :=
+           (refetch : bool) (cache : list (Z * list Z)) (cst : Z) (cbl : list Z) (flag : Z) : lstate * rout :=
   let a := l_a s in
   let conn := l_conn s in
   let asked := if refetch then Some (snd (best c lastH lastX)) else None in
   let failph := if c_legacy c then PRetry lastH lastX else PWait in
   if refetch && (length cache =? 0)%nat then
-    ({| l_a := a; l_ph := failph; l_cache := cache; l_conn := conn; l_banned := l_banned s;
+    ({| l_a := a; l_ph := failph; l_cache := cache; l_cache_stop := cst; l_conn := conn; l_banned := l_banned s;
         l_synced := l_synced s; l_panic := false; l_cache_bl := cbl; l_flag := flag |},
      (1, asked, []))
   else
   let '(bans, res) := resolve_of c s lastH lastX d in
-  let s1 := {| l_a := a; l_ph := failph; l_cache := cache; l_conn := conn; l_banned := l_banned s;
+  let s1 := {| l_a := a; l_ph := failph; l_cache := cache; l_cache_stop := cst; l_conn := conn; l_banned := l_banned s;
                l_synced := l_synced s; l_panic := false; l_cache_bl := cbl; l_flag := flag |} in
   let '(conn1, banned1) := do_ban s1 bans in
   match res with
   | Some (x :: l) =>
     let '(bans2, a', pan) := get_checkpointed H (c_genesis c) a (x :: l) (onlyc conn1 a_peer (d_ars d)) in
-    let s2 := {| l_a := a'; l_ph := PDecide; l_cache := cache; l_conn := conn1; l_banned := banned1;
+    let s2 := {| l_a := a'; l_ph := PDecide; l_cache := cache; l_cache_stop := cst; l_conn := conn1; l_banned := banned1;
                  l_synced := l_synced s; l_panic := pan; l_cache_bl := cbl; l_flag := flag |} in
     let '(conn2, banned2) := do_ban s2 bans2 in
-    ({| l_a := a'; l_ph := PDecide; l_cache := cache; l_conn := conn2; l_banned := banned2;
+    ({| l_a := a'; l_ph := PDecide; l_cache := cache; l_cache_stop := cst; l_conn := conn2; l_banned := banned2;
         l_synced := l_synced s; l_panic := pan; l_cache_bl := cbl; l_flag := flag |},
      ((if pan then 6 else 3), asked, bans ++ bans2))
   | _ =>
     (* F112: the lists are forgotten (they may be those of peers banned just
        now); F111: back to waitForHeaders *)
-    ({| l_a := a; l_ph := failph; l_cache := if c_legacy c then cache else []; l_conn := conn1;
+    ({| l_a := a; l_ph := failph; l_cache := if c_legacy c then cache else []; l_cache_stop := cst; l_conn := conn1;
         l_banned := banned1; l_synced := l_synced s; l_panic := false;
         l_cache_bl := if c_legacy c then cbl else []; l_flag := flag |},
      (2, asked, bans))
@@ -212,6 +226,7 @@ Definition stale_flag (c : lcfg) (s : lstate) (lastH : Z) (refetch : bool) : Z :
 Definition attempt (c : lcfg) (s : lstate) (lastH lastX : Z) (d : rdata) : lstate * rout :=
   let refetch := fst (lists_of c s lastH lastX d) in
   attempt_with c s lastH lastX d refetch (snd (lists_of c s lastH lastX d))
+               (if refetch then snd (best c lastH lastX) else l_cache_stop s)
                (if refetch then abl (l_a s) else l_cache_bl s) (stale_flag c s lastH refetch).
 
 (* from waitForHeaders *)
@@ -234,16 +249,16 @@ Definition tip_round (s : lstate) (d : rdata) : lstate * rout :=
   | UWrite m =>
     match awrite_cf H a m with
     | (a', Some _) =>
-      ({| l_a := a'; l_ph := PTip; l_cache := l_cache s; l_conn := conn1; l_banned := banned1;
+      ({| l_a := a'; l_ph := PTip; l_cache := l_cache s; l_cache_stop := l_cache_stop s; l_conn := conn1; l_banned := banned1;
           l_synced := l_synced s; l_panic := false; l_cache_bl := l_cache_bl s; l_flag := l_flag s |},
        (4, None, bans))
     | (_, None) =>
-      ({| l_a := a; l_ph := PTip; l_cache := l_cache s; l_conn := conn1; l_banned := banned1;
+      ({| l_a := a; l_ph := PTip; l_cache := l_cache s; l_cache_stop := l_cache_stop s; l_conn := conn1; l_banned := banned1;
           l_synced := l_synced s; l_panic := false; l_cache_bl := l_cache_bl s; l_flag := l_flag s |},
        (5, None, bans))
     end
   | _ =>
-    ({| l_a := a; l_ph := PTip; l_cache := l_cache s; l_conn := conn1; l_banned := banned1;
+    ({| l_a := a; l_ph := PTip; l_cache := l_cache s; l_cache_stop := l_cache_stop s; l_conn := conn1; l_banned := banned1;
         l_synced := l_synced s; l_panic := false; l_cache_bl := l_cache_bl s; l_flag := l_flag s |},
      (5, None, bans))
   end.
@@ -265,16 +280,16 @@ Definition round (c : lcfg) (s : lstate) (d : rdata) : lstate * rout :=
 Definition lstep (c : lcfg) (s : lstate) (e : lev) : lstate :=
   match e with
   | EChain h xs syn =>
-    {| l_a := chain_event (l_a s) h xs; l_ph := l_ph s; l_cache := l_cache s; l_conn := l_conn s;
+    {| l_a := chain_event (l_a s) h xs; l_ph := l_ph s; l_cache := l_cache s; l_cache_stop := l_cache_stop s; l_conn := l_conn s;
        l_banned := l_banned s; l_synced := syn; l_panic := l_panic s; l_cache_bl := l_cache_bl s;
        l_flag := l_flag s |}
   | EConnect p =>
     if mem p (l_banned s) || mem p (l_conn s) then s else
-    {| l_a := l_a s; l_ph := l_ph s; l_cache := l_cache s; l_conn := l_conn s ++ [p];
+    {| l_a := l_a s; l_ph := l_ph s; l_cache := l_cache s; l_cache_stop := l_cache_stop s; l_conn := l_conn s ++ [p];
        l_banned := l_banned s; l_synced := l_synced s; l_panic := l_panic s;
        l_cache_bl := l_cache_bl s; l_flag := l_flag s |}
   | ELeave p =>
-    {| l_a := l_a s; l_ph := l_ph s; l_cache := l_cache s;
+    {| l_a := l_a s; l_ph := l_ph s; l_cache := l_cache s; l_cache_stop := l_cache_stop s;
        l_conn := List.filter (fun q => negb (q =? p)) (l_conn s);
        l_banned := l_banned s; l_synced := l_synced s; l_panic := l_panic s;
        l_cache_bl := l_cache_bl s; l_flag := l_flag s |}
@@ -297,5 +312,5 @@ Fixpoint louts (c : lcfg) (s : lstate) (evs : list lev) : list rout :=
 End Loop.
 
 Definition linit (a : alog2) (conn : list Z) (syn : bool) : lstate :=
-  {| l_a := a; l_ph := PWait; l_cache := []; l_conn := conn; l_banned := []; l_synced := syn;
+  {| l_a := a; l_ph := PWait; l_cache := []; l_cache_stop := 0; l_conn := conn; l_banned := []; l_synced := syn;
      l_panic := false; l_cache_bl := []; l_flag := 0 |}.
